@@ -425,7 +425,7 @@ def run(ctx):
             ctx.extra["control_%s_counterexamples" % variant] = len(recs)
         if not ctx.quick:
             # random simulation of the model: six particles with six links, seven with seven
-            nsim = int(os.environ.get("VERIF_C19_SIM", "60000"))
+            nsim = int(os.environ.get("VERIF_C19_SIM", "40000"))
             for n in (6, 7):
                 res = ctx.tlc("MC_Chains", cfg_chains("SimSpec", n, n, "none", ["CONSTRAINT EmitAlgoBad"]),
                               name="algo_sim%d" % n, workers=workers, simulate=nsim, depth=2 * n + 4, seed=ctx.seed + n)
@@ -468,7 +468,7 @@ def run(ctx):
                 reg.append(json.load(fh)["case"])
         run_cases(ctx, reg)
     if want("l3"):
-        total = ctx.pick(100, 2000)
+        total = ctx.pick(100, 1500)
         batch = 250
         done = 0
         while done < total:
